@@ -25,6 +25,14 @@ OBJ_ATTRS = {
 }
 
 
+import collections
+Credentials = collections.namedtuple('Credentials', ['userid', 'password'])   # a tuple subclass
+
+
+class CredsTuple(tuple):
+    """another tuple subclass (no field names)"""
+
+
 class Foreign:
     """a value of a type pywbem knows nothing about (stable repr)"""
 
